@@ -61,6 +61,9 @@ func vRunSrvScenario(sc *vSrvScenario) ([]vOutEvent, map[string]interface{}) {
 		if a := s.lookup(vGID()); a != nil {
 			g = a.name
 		}
+		if g != "env" && s.dead() {
+			return // released after the scheduler stopped: not part of the recorded execution
+		}
 		mu.Lock()
 		out = append(out, vOutEvent{E: e, G: g, K: k, N: n, M: m, Err: err})
 		mu.Unlock()
